@@ -62,7 +62,7 @@ var optSnippets = map[string][]string{
 	"csv-wide":           {"日本；語；«q；»»r«\r\nстрана；\"x\"\"y\"；；\n", "a,b；c\r«open；", "«a««b«；«««"},
 	"generic-quotes":     {"a «b  c« “d“ 'e' \"f\" # c\n«open", "x«« ““y «'« “\"“ \uffff"},
 	"generic-unknownsym": {"a ? b ?! c !? <= ? # c\n?", "??!?\uffff?# c\n? ?"},
-	"mustache": {"Hello, {{ Name }}!\n{{#if a}} x {{/if}}", "{{ 'q'  \"r\" }} t {{{ b }}}", "a\r\n{{ b 😀 c }}\n d", "{{a}}{{b}} {{ c  d }}"},
+	"mustache": {"a {{ \"}}\" x }} b {{ '}}}' }}} c {{ '{{' }}", "Hello, {{ Name }}!\n{{#if a}} x {{/if}}", "{{ 'q'  \"r\" }} t {{{ b }}}", "a\r\n{{ b 😀 c }}\n d", "{{a}}{{b}} {{ c  d }}"},
 }
 
 // one lexeme of every token class per tokenizer, including the skippable ones (comment, whitespace, unknown character)
@@ -70,7 +70,7 @@ var optLexemes = map[string][]string{
 	"generic":        {"a", "1", "2.5", "'q'", "# c", " ", "\n", "\r\n", "😀", "<=", "-"},
 	"expression":     {"a", "1", "2.5e1", "'q''r'", "\"w\"", "/*c*/", "/*\n*/", " ", "\n", "😀", "<=", "NOT"},
 	"csv":            {"a", ",", "\"q\"\"r\"", "\r\n", "\n", "😀", "\"\""},
-	"mustache":       {"text", "{{", "}}", "{{{", "}}}", "a", " ", "\n", "😀", "'q'", "#"},
+	"mustache":       {"text", "{{", "}}", "{{{", "}}}", "a", " ", "\n", "😀", "'q'", "#", "\"}}\"", "'}}}'", "'{{'"},
 	"generic-custom": {"a", "=:=", "=:", " ", "\n", "😀", "<!--", "# c"},
 	"generic-arrows":     {"a", "→", "→←", "\u3000", " ", "ж", "# c", "'q→'", "😀"},
 	"csv-wide":           {"a", "；", "«q««r«", "\"q\"", "\r\n", "ж", "««", "😀"},
